@@ -108,3 +108,10 @@ pub fn vx_take_value<T>(o: &mut Option<T>, blocking: bool) -> (r: Option<T>)
         old(o).is_some() ==> blocking, // [C14 value_leaves_the_wrapper_only_inside_a_blocking_job]
     ensures r == *old(o), final(o).is_none()
 { o.take() }
+impl<T> PMutex<T> {
+    // Mutex::clear_poison (std 1.77)
+    #[verifier::external_body]
+    pub fn clear_poison(&mut self)
+        ensures !final(self).poisoned@, final(self).data == old(self).data, final(self).held == old(self).held
+    { unimplemented!() }
+}
